@@ -156,7 +156,7 @@ func init() {
 	Stubs["C15"] = []string{"cache.Clock (virtual clock through the public WithClock seam)"}
 	Stubs["C17"] = []string{"regional AWS KMS services (fake nodes behind the plugins' client interfaces)"}
 	Stubs["C18"] = append(append([]string{}, worldStubs...), "database/sql driver (fake)", "DynamoDB service (fake)", "gRPC transport (in-memory stream)")
-	Stubs["C19"] = append(append([]string{}, worldStubs...), "gRPC/HTTP-2 transport (in-memory stream)")
+	Stubs["C19"] = append(append([]string{}, worldStubs...), "gRPC/HTTP-2 transport (in-memory stream that passes every response through the real protobuf codec)", "in one sampled run of eight nothing but the transport: the service is built by its own constructor (repository's in-memory metastore, static KMS, memguard secrets)")
 }
 
 // Thorough reports whether the thorough tier was requested.
